@@ -26,7 +26,8 @@ type Variant struct {
 	Contains string // optional substring of the construct
 	// Benign marks a behaviour-preserving refactoring: NO rule may report anything on it.
 	Benign bool
-	// Positive marks the variant as the positive example of a rule whose expected count is zero.
+	// Patch, when set, is a unified diff (a seeded change kept under /verif/seeded) applied instead of Old/New.
+	Patch string
 }
 
 var Variants []Variant
@@ -59,6 +60,7 @@ func RunVariants(prop, repo, verif string) any {
 			vs = append(vs, v)
 		}
 	}
+	vs = append(vs, SeededVariants(verif, prop)...)
 	if len(vs) == 0 {
 		return nil
 	}
@@ -91,23 +93,54 @@ func RunVariants(prop, repo, verif string) any {
 			defer func() { <-sem }()
 			r := VariantResult{Name: v.Name, File: v.File, Expect: v.Expect}
 			defer func() { rep.Results[i] = r }()
-			src, err := os.ReadFile(filepath.Join(repo, v.File))
-			if err != nil {
-				r.Outcome = "skipped (file absent)"
-				return
+			var args []string
+			if v.Patch != "" {
+				pb, err := os.ReadFile(v.Patch)
+				if err != nil {
+					r.Outcome = "skipped (patch absent)"
+					return
+				}
+				for j, fp := range parseUnifiedDiff(string(pb)) {
+					src, err := os.ReadFile(filepath.Join(repo, fp.file))
+					if err != nil {
+						r.Outcome = "skipped (file absent)"
+						return
+					}
+					edited, ok := applyHunks(string(src), fp.hunks)
+					if !ok {
+						r.Outcome = "skipped (patch does not apply to the current tree)"
+						return
+					}
+					tf := filepath.Join(tmp, fmt.Sprintf("v%d_%d.go", i, j))
+					if err := os.WriteFile(tf, []byte(edited), 0o644); err != nil {
+						r.Outcome = "skipped (tmp)"
+						return
+					}
+					args = append(args, "-overlay", filepath.Join(repo, fp.file)+"="+tf)
+				}
+				if len(args) == 0 {
+					r.Outcome = "skipped (empty patch)"
+					return
+				}
+			} else {
+				src, err := os.ReadFile(filepath.Join(repo, v.File))
+				if err != nil {
+					r.Outcome = "skipped (file absent)"
+					return
+				}
+				if strings.Count(string(src), v.Old) != 1 {
+					r.Outcome = "skipped (anchor text not present exactly once in the current tree)"
+					return
+				}
+				edited := strings.Replace(string(src), v.Old, v.New, 1)
+				tf := filepath.Join(tmp, fmt.Sprintf("v%d.go", i))
+				if err := os.WriteFile(tf, []byte(edited), 0o644); err != nil {
+					r.Outcome = "skipped (tmp)"
+					return
+				}
+				args = append(args, "-overlay", filepath.Join(repo, v.File)+"="+tf)
 			}
-			if strings.Count(string(src), v.Old) != 1 {
-				r.Outcome = "skipped (anchor text not present exactly once in the current tree)"
-				return
-			}
-			edited := strings.Replace(string(src), v.Old, v.New, 1)
-			tf := filepath.Join(tmp, fmt.Sprintf("v%d.go", i))
-			if err := os.WriteFile(tf, []byte(edited), 0o644); err != nil {
-				r.Outcome = "skipped (tmp)"
-				return
-			}
-			cmd := exec.Command(self, "-prop", prop, "-tier", "quick", "-variant", "-repo", repo, "-verif", verif,
-				"-overlay", filepath.Join(repo, v.File)+"="+tf)
+			cmd := exec.Command(self, append([]string{"-prop", prop, "-tier", "quick", "-variant", "-repo", repo, "-verif", verif}, args...)...)
 			cmd.Env = os.Environ()
 			out, err := cmd.Output()
 			if err != nil {
